@@ -1,6 +1,7 @@
 #!/bin/bash
 # usage: confirm_seed2.sh <id> <variant>  -- confirms a sub-agent's seeded change in its scratch worktree /tmp/seed2/<id>:
 # demo fails with the patch, full suite passes with the patch, demo passes without it. Log: /tmp/seed2/<id>.<variant>.confirm.log
+# Suite and demos run in a private network namespace (unshare -n) so that parallel runs cannot clash on the fixed test ports.
 id=$1; v=$2; wt=/tmp/seed2/$id; out=/tmp/seed2/$id.out/$v; log=/tmp/seed2/$id.$v.confirm.log
 exec > $log 2>&1
 cd $wt || exit 2
@@ -9,13 +10,14 @@ export GOFLAGS=-mod=mod GOPROXY=off
 git apply $out/patch.diff || { echo "APPLY-FAILED"; exit 2; }
 go build ./... || { echo "BUILD-FAILED"; exit 2; }
 cp $out/zz_demo_test.go .
-race=""; grep -q '"-race"\|-race' $out/meta.json && race="-race"
-go test -vet=off -count=1 $race -timeout 10m -run "TestDemo" . > /tmp/seed2/$id.$v.demo_with.log 2>&1; echo "demo-with-patch exit=$? (expect non-zero)"
+race=""; grep -q -- '-race' $out/meta.json && race="-race"
+ns() { unshare -n bash -c "ip link set lo up; $1"; }
+ns "go test -vet=off -count=1 $race -timeout 10m -run TestDemo ." > /tmp/seed2/$id.$v.demo_with.log 2>&1; echo "demo-with-patch exit=$? (expect non-zero)"
 rm zz_demo_test.go
-flock /tmp/seed2/suite0.lock flock /tmp/seed2/suite1.lock flock /tmp/seed2/confirm.lock go test -vet=off -count=1 -timeout 25m ./... > /tmp/seed2/$id.$v.suite_with.log 2>&1; echo "suite-with-patch exit=$? (expect 0)"
+ns "go test -vet=off -count=1 -timeout 25m ./..." > /tmp/seed2/$id.$v.suite_with.log 2>&1; echo "suite-with-patch exit=$? (expect 0)"
 git checkout -q -- .
 cp $out/zz_demo_test.go .
-go test -vet=off -count=1 $race -timeout 10m -run "TestDemo" . > /tmp/seed2/$id.$v.demo_without.log 2>&1; echo "demo-without-patch exit=$? (expect 0)"
+ns "go test -vet=off -count=1 $race -timeout 10m -run TestDemo ." > /tmp/seed2/$id.$v.demo_without.log 2>&1; echo "demo-without-patch exit=$? (expect 0)"
 rm zz_demo_test.go
 git status --short
 echo DONE
